@@ -596,6 +596,26 @@ func (env *CEnv) call(n *Node) cval {
 	case "min":
 		a, b := env.term(n.Kids[0]), env.term(n.Kids[1])
 		return cval{V: Ite(Le(a, b), a, b)}
+	case "deref":
+		v := env.eval(n.Kids[0])
+		pt, ok := v.T.Underlying().(*types.Pointer)
+		if v.T == nil || !ok {
+			cfail("deref of non-pointer")
+		}
+		return cval{V: env.ex.load(env.scratchState(), v.V, pt.Elem()), T: pt.Elem()}
+	case "b64std", "b64url", "b64std_dec", "b64url_dec":
+		x := env.term(n.Kids[0])
+		enc := "std"
+		if strings.HasPrefix(name, "b64url") {
+			enc = "url"
+		}
+		if strings.HasSuffix(name, "_dec") {
+			return cval{V: App("b64dec!"+enc, SStr, x)}
+		}
+		return cval{V: App("b64enc!"+enc, SStr, x)}
+	case "b64std_ok", "b64url_ok":
+		x := env.term(n.Kids[0])
+		return cval{V: App("b64ok!"+name[3:6], SBool, x)}
 	case "val":
 		// val(values, "GetPassword"): accessor of the request-values object
 		v := env.term(n.Kids[0])
